@@ -204,7 +204,7 @@ static void op_na(char** tok, int n) {
   fm.actuator_biasprm = biasprm; fm.actuator_actrange = actrange;
   fd.act = actv; fd.actuator_velocity = avel;
   double r = mj_nextActivation(&fm, &fd, 0, off, adot);
-  pbits(r); printf("\n");
+  printf("r"); pbits(r); printf("\n");
 }
 
 // ------------------------------------------------------------------------------------------- model info
@@ -302,15 +302,21 @@ static void certificate(void) {
         double v = d->M[adr] - h * d->qDeriv[m->mapD2M[adr]];
         Mh[r * nv + c] = v; Mh[c * nv + r] = v;
       }
+    // mjd_freeMhat reads d->qvel (gyroscopic derivative): evaluate it at the PRE-step velocity, as the engine did
+    double* vpost = dup(d->qvel, nv);
+    memcpy(d->qvel, fw[0].qvel, sizeof(double) * nv);
     for (int j = 0; j < m->njnt; j++) {
       double A[36];
-      if (!mjd_freeMhat(m, d, j, h, A)) continue;
+      int isfree = mjd_freeMhat(m, d, j, h, A);
+      if (!isfree) continue;
       int adr = m->jnt_dofadr[j];
       for (int r = 0; r < 6; r++) {
         for (int c = 0; c < nv; c++) Mh[(adr + r) * nv + c] = 0;
         for (int c = 0; c < 6; c++) Mh[(adr + r) * nv + adr + c] = A[6 * r + c];
       }
     }
+    memcpy(d->qvel, vpost, sizeof(double) * nv);
+    free(vpost);
   }
   double maxres = 0, nrmM = 0, nrmx = 0, nrmr = 0;
   for (int r = 0; r < nv; r++) {
@@ -350,7 +356,8 @@ static void op_step(void) {
     snprintf(key, sizeof key, "fw%d_act", k); pvec(key, fw[k].act, na);
     snprintf(key, sizeof key, "fw%d_qacc", k); pvec(key, fw[k].qacc, nv);
     snprintf(key, sizeof key, "fw%d_actdot", k); pvec(key, fw[k].act_dot, na);
-    if (k == 0) { pvec("fw0_avel", fw[k].avel, nout); pvec("fw0_alen", fw[k].alen, nout); }
+    snprintf(key, sizeof key, "fw%d_avel", k); pvec(key, fw[k].avel, nout);
+    snprintf(key, sizeof key, "fw%d_alen", k); pvec(key, fw[k].alen, nout);
   }
   printf(" nacc 1 %d", n_acc);
   if (tr_acc) { pvec("acc", tr_acc, nv); printf(" acc_scl 1"); pbits(tr_acc_scl); }
@@ -410,7 +417,7 @@ int main(void) {
     } else if (!strcmp(op, "CLIP")) {
       double x, lo, hi;
       if (n != 4 || !parse_f(tok[1], &x) || !parse_f(tok[2], &lo) || !parse_f(tok[3], &hi)) printf("bad-op\n");
-      else { pbits(mju_clip(x, lo, hi)); printf("\n"); }
+      else { printf("r"); pbits(mju_clip(x, lo, hi)); printf("\n"); }
     } else if (!strcmp(op, "QI")) {
       double v[8]; int ok = n == 9;
       for (int i = 0; ok && i < 8; i++) ok = parse_f(tok[1 + i], &v[i]);
